@@ -377,7 +377,8 @@ def run(ctx, chk):
         g1, near = find_guard(lf, want_k, ["Y.items()"], None, swallowed)
         if g1 is not None:
             break
-    other_tbl = [g for g in lf.guards if f"{K} in " in f_show(g.F)]
+    other_tbl = [g for g in lf.guards if g.F[0] == "atom" and g.F[1].startswith(f"{K} in ")
+                 and vshow not in g.F[1] and oshow not in g.F[1]]
     if g1 is None and other_tbl:
         chk.undecided("C18.sections.unknown", "every key of the document is a required or optional "
                       "section", "a membership guard over the keys exists, in a table that is not "
